@@ -86,6 +86,8 @@ fn systems(th: bool) -> Vec<LinkSys> {
     // a receiver that keeps no state and only replies: what it was handed shows in what the sender gets back
     v.push(LinkSys { name: "stateless echo [1,2]".into(), actors: vec![LinkActor { script: vec![(id(1), 1), (id(1), 2)], echo: false, stateless: false, ignore: None }, LinkActor { script: vec![], echo: true, stateless: true, ignore: None }] });
     v.push(LinkSys { name: "stateless echo [1]".into(), actors: vec![LinkActor { script: vec![(id(1), 1)], echo: false, stateless: false, ignore: None }, LinkActor { script: vec![], echo: true, stateless: true, ignore: None }] });
+    // two senders into one receiver: the receive sequencers are per source
+    v.push(LinkSys { name: "two senders [0->2:1,2] [1->2:3]".into(), actors: vec![LinkActor { script: vec![(id(2), 1), (id(2), 2)], echo: false, stateless: false, ignore: None }, LinkActor { script: vec![(id(2), 3)], echo: false, stateless: false, ignore: None }, quiet()] });
     v.push(LinkSys { name: "two peers [->1:1, ->2:2, ->1:3]".into(), actors: vec![LinkActor { script: vec![(id(1), 1), (id(2), 2), (id(1), 3)], echo: false, stateless: false, ignore: None }, quiet(), quiet()] });
     if th {
         v.push(LinkSys { name: "two peers [->2:1, ->1:2, ->1:3]".into(), actors: vec![LinkActor { script: vec![(id(2), 1), (id(1), 2), (id(1), 3)], echo: false, stateless: false, ignore: None }, quiet(), quiet()] });
@@ -157,7 +159,7 @@ pub fn run_c16(a: &Args, shared: &SharedReport) {
     {
         let mut r = shared.lock().unwrap();
         r.rule = "every reachable state (explicit search, de-duplicated on the state's own Hash/Eq) of every link-wrapped system in the family over lossy duplicating and non-duplicating unordered networks within the network-size boundary; invariants: handed-over sequence is a prefix of the sent sequence, nothing is acknowledged before it was handed over, all acknowledged => sequences equal, and from every reachable state a state with every flow handed over completely is still reachable; non-trivial = at least one message was handed over or dropped".into();
-        r.bounds = json!({"messages_per_flow": "<=3", "network_boundary": if th {"len <= 6"} else {"len <= 5"}, "systems": "one-way scripts (distinct and repeated payloads), two-way, echo, stateless echo (replies without touching its state), one sender to two peers", "networks": ["unordered duplicating lossy", "unordered non-duplicating lossy"]});
+        r.bounds = json!({"messages_per_flow": "<=3", "network_boundary": if th {"len <= 6"} else {"len <= 5"}, "systems": "one-way scripts (distinct and repeated payloads), two-way, echo, stateless echo (replies without touching its state), one sender to two peers, two senders to one receiver", "networks": ["unordered duplicating lossy", "unordered non-duplicating lossy"]});
     }
     let bound = if th { 6 } else { 5 };
     let mut idx = 0u64;
